@@ -285,8 +285,30 @@ pub fn run(ctx: &Ctx, rep: &mut Report) {
     if rows.len() != n {
         rep.finding("model", "table", "unit-table", &format!("model table has {} units, get_all_units() has {}", rows.len(), n), "c17.model.table");
     }
-    for (i, row) in rows.iter().enumerate().take(n) {
+    // The translator emits the table in a pinned order (the order of the rows in units.rs is not
+    // observable), so a model row is matched with the unit of the code that lists its identifiers.
+    let mut model_to_real: Vec<Option<usize>> = vec![];
+    let mut matched = vec![false; n];
+    for row in rows.iter() {
         let f = row.list();
+        let first: Option<String> = if f.len() == 6 { f[4].list().first().and_then(|a| unhs(a.atom())) } else { None };
+        let j = first.and_then(|id| all.iter().position(|u| u.identifiers.iter().any(|x| *x == id.as_str())));
+        if let Some(j) = j {
+            if matched[j] {
+                rep.finding("model", "table", &format!("unit {}", name(j)), "two rows of the model table match this unit", "c17.model.table");
+            }
+            matched[j] = true;
+        }
+        model_to_real.push(j);
+    }
+    for (j, m) in matched.iter().enumerate() {
+        if !*m {
+            rep.finding("model", "table", &format!("unit {}", name(j)), "no row of the model table lists this unit's identifiers", "c17.model.table");
+        }
+    }
+    for (k, row) in rows.iter().enumerate() {
+        let f = row.list();
+        let i = match model_to_real[k] { Some(i) => i, None => { rep.finding("model", "table", &format!("model row {}", k), "its first identifier is listed by no unit of the code", "c17.model.table"); continue; } };
         let u = &all[i];
         let mut bad = vec![];
         if f.len() != 6 {
@@ -427,7 +449,11 @@ pub fn run(ctx: &Ctx, rep: &mut Report) {
                 rep.finding("oracle", "guessed", &desc, &format!("resolved to {} which lists nothing equal to it up to case", name(i)), "c17.guessed");
             }
         }
-        // CORRESPONDENCE (full three-way class)
+        // CORRESPONDENCE (full three-way class); the model's unit number is translated to the code's
+        let m = match m.strip_prefix("(ok ").and_then(|x| x.strip_suffix(")")).and_then(|x| x.parse::<usize>().ok()) {
+            Some(k) => match model_to_real.get(k).copied().flatten() { Some(i) => format!("(ok {})", i), None => format!("(ok model-row-{})", k) },
+            None => m,
+        };
         if m != r.wire() {
             rep.finding("model", "resolve", &desc, &format!("impl={} model={} spec={}", r.wire(), m, s.wire()), "c17.model.resolve");
         }
